@@ -1469,6 +1469,11 @@ class Engine:
             for k, v in ret.items():
                 wrapped[(("v", "Some"), ("f", 0)) + k] = v
             ret = wrapped
+        elif frame.get("wrap") == "Err":
+            wrapped = {("disc",): z3.IntVal(1)}
+            for k, v in ret.items():
+                wrapped[(("v", "Err"), ("f", 0)) + k] = v
+            ret = wrapped
         if frame["dest"] is not None:
             self.store(st, frame["dest"], ret)
         st.events.append(Event("ret:" + frame.get("evname", "?"), [], ret, (frame["body"].name, ""), "ret"))
@@ -1667,6 +1672,39 @@ class Engine:
                     return self.inline_call(st, frame, body, dest_loc, ret_bb, [argvals[2], tup],
                                             closure_env=(argvals[2], None),
                                             evname="closure@" + clv.loc.split(":")[0] + ":" + clv.loc.split(":")[1])
+                return None
+        # 5d. Result::map_err with a known closure: Ok passes through, Err(e) runs the closure and wraps its result
+        m = re.match(r"^(?:std::result::|core::result::)?Result::<.*>::map_err::<", callee.strip())
+        if m and len(argvals) == 2 and getattr(self, "inline_map_err", False):
+            clv = argvals[1].get(("closure",))
+            rv = argvals[0]
+            if isinstance(clv, Closure) and clv.loc in self.prog.closure_by_loc and len(st.frames) < self.max_depth + 4:
+                d = self._disc_of(st, rv, "Result<>")
+                body = self.prog.closure_by_loc[clv.loc].parse()
+                if self.feasible(st.cond, d == 0):
+                    s2 = st.fork()
+                    s2.cond.append(d == 0)
+                    if dest_loc is not None:
+                        out = {("disc",): z3.IntVal(0)}
+                        for k, v in rv.items():
+                            if k and k[0] == ("v", "Ok"):
+                                out[k] = v
+                        if not any(k and k[0] == ("v", "Ok") for k in out):
+                            out[(("v", "Ok"), ("f", 0))] = self._payload(s2, rv, ("v", "Ok"), "map_err")
+                        self.store(s2, dest_loc, out)
+                    if ret_bb is not None:
+                        self.work.append((s2, ret_bb))
+                if self.feasible(st.cond, d == 1):
+                    st.cond.append(d == 1)
+                    payload = {k[2:]: v for k, v in rv.items() if k[:2] == (("v", "Err"), ("f", 0))}
+                    if not payload:
+                        payload = {(): self._payload(st, rv, ("v", "Err"), "map_err")}
+                    tup = {(("f", 0),) + k: v for k, v in payload.items()}
+                    r = self.inline_call(st, frame, body, dest_loc, ret_bb, [argvals[1], tup],
+                                         closure_env=(argvals[1], None),
+                                         evname="closure@" + clv.loc.split(":")[0] + ":" + clv.loc.split(":")[1])
+                    st.frames[-1]["wrap"] = "Err"
+                    return r
                 return None
         # 6. inlining of crate functions
         if any(p.search(plain) or p.search(callee) for p in self.inline):
